@@ -49,6 +49,14 @@ static unsigned long model_hash(const void *k)
 }
 static int str_equal(const void *a, const void *b) { return strcmp((const char *)a, (const char *)b) == 0; }
 static struct lh_table *tab;
+static int nfree; /* calls of the raw table's entry-free callback since the last event */
+static void count_free(struct lh_entry *e)
+{
+	(void)e;
+	nfree++;
+}
+static int raw_kind; /* raw table: 0 model hash, 1 lh_kchar_table_new, 2 lh_kptr_table_new (keys are the uni[] pointers) */
+static int raw_size = 3;
 static json_object *obj;
 static int level; /* 0 raw, 1 json_object */
 
@@ -90,6 +98,8 @@ static void observe(const char *op, int k, int v, int ret, const int *ks, int nk
 	ev_ints("visited", tmp, nvis);
 	if (level == 0)
 	{
+		ev_int("nfree", nfree);
+		nfree = 0;
 		ev_int("len", lh_table_length(tab));
 		struct lh_entry *e;
 		int n = 0;
@@ -261,6 +271,7 @@ static long live0;
 static int started;
 static void finish_execution(void)
 {
+	int wasraw = tab != 0;
 	if (tab)
 		lh_table_free(tab);
 	if (obj)
@@ -271,6 +282,9 @@ static void finish_execution(void)
 	{
 		ev_begin("op");
 		ev_str("op", "end");
+		if (wasraw)
+			ev_int("nfree", nfree);
+		nfree = 0;
 		ev_int("leak", (int)(vh_live - live0));
 		ev_end();
 	}
@@ -283,7 +297,12 @@ static void fresh(int lvl, int hash)
 	live0 = vh_live;
 	level = lvl;
 	if (lvl == 0)
-		tab = lh_table_new(3, NULL, model_hash, str_equal);
+	{
+		tab = raw_kind == 1   ? lh_kchar_table_new(raw_size, count_free)
+		      : raw_kind == 2 ? lh_kptr_table_new(raw_size, count_free)
+		                      : lh_table_new(raw_size, count_free, model_hash, str_equal);
+		nfree = 0;
+	}
 	else
 	{
 		json_global_set_string_hash(hash ? JSON_C_STR_HASH_PERLLIKE : JSON_C_STR_HASH_DFLT);
@@ -302,11 +321,14 @@ static void do_add(int k, int v, int isnew, int constkey)
 	int ret;
 	if (level == 0)
 	{
-		if (isnew)
+		if (isnew && vh_below(2))
+			ARMED(ret = lh_table_insert_w_hash(tab, uni[k], (void *)(intptr_t)v, lh_get_hash(tab, uni[k]), 0));
+		else if (isnew)
 			ARMED(ret = lh_table_insert(tab, uni[k], (void *)(intptr_t)v));
 		else
 		{
-			struct lh_entry *e = lh_table_lookup_entry(tab, uni[k]);
+			struct lh_entry *e = vh_below(2) ? lh_table_lookup_entry(tab, uni[k])
+			                                 : lh_table_lookup_entry_w_hash(tab, uni[k], lh_get_hash(tab, uni[k]));
 			if (e)
 			{
 				lh_entry_set_val(e, (void *)(intptr_t)v);
@@ -334,7 +356,13 @@ static void do_del(int k)
 {
 	int ret;
 	if (level == 0)
-		ret = lh_table_delete(tab, uni[k]);
+	{
+		struct lh_entry *e;
+		if (vh_below(2))
+			ret = lh_table_delete(tab, uni[k]);
+		else
+			ret = (e = lh_table_lookup_entry(tab, uni[k])) ? lh_table_delete_entry(tab, e) : -1;
+	}
 	else
 	{
 		/* json_object_object_del returns nothing: presence before the call is the result */
@@ -342,6 +370,14 @@ static void do_del(int k)
 		json_object_object_del(obj, kp(k));
 	}
 	observe("del", k, 0, ret, 0, 0, 0, 0);
+}
+
+/* lh_table_resize with a caller-chosen size (any positive value), on the raw table or on an object's own table */
+static void do_resize(int n)
+{
+	int ret;
+	ARMED(ret = lh_table_resize(level == 0 ? tab : json_object_get_object(obj), n));
+	observe("resize", 0, n, ret, 0, 0, 0, 0);
 }
 
 static const int *fdel_ks;
@@ -468,6 +504,7 @@ static void run_script(char *line, int lvl, long idx, long fault_last)
 		case 'd': do_del(a[0]); break;
 		case 'g': do_get(a[0]); break;
 		case 'f': do_fdel(a, n); break;
+		case 'r': do_resize(a[0]); break;
 		default: fprintf(stderr, "bad op %s\n", tok); exit(2);
 		}
 		fault_k = -2;
@@ -498,9 +535,11 @@ static int replay(const char *path, long start, int lvl, int faults)
 		fault_n = 0;
 		{
 			/* the counting run is not recorded */
+			finish_execution(); /* the previous execution's "end" belongs to the recorded trace, this run's does not */
 			FILE *keep = ev_out, *nul = fopen("/dev/null", "w");
 			ev_out = nul;
 			run_script(copy, lvl, idx, -1);
+			finish_execution();
 			ev_out = keep;
 			fclose(nul);
 		}
@@ -564,7 +603,13 @@ static int drive(int start, int nexec, int nops)
 		vh_srand(s0 * 1000003ull + (uint64_t)x);
 		int hash = x & 1;
 		big_universe(hash);
-		fresh(1, hash);
+		/* every third execution on a raw lh_table: prescribed hash, the string hash or pointer keys; any initial size */
+		int raw = x % 3 == 2;
+		raw_kind = raw ? (int)vh_below(3) : 0;
+		raw_size = raw ? 1 + (int)vh_below(vh_below(2) ? 4 : 40) : 3;
+		fresh(raw ? 0 : 1, hash);
+		raw_kind = 0;
+		raw_size = 3;
 		int ops = nops / 2 + (int)vh_below((uint32_t)nops / 2 + 1);
 		int phase = 0; /* 0 grow, 1 churn, 2 shrink */
 		for (int i = 0; i < ops; i++)
@@ -572,7 +617,7 @@ static int drive(int start, int nexec, int nops)
 			if (vh_below(40) == 0)
 				phase = (int)vh_below(3);
 			int k = 1 + (int)vh_below((uint32_t)nuni);
-			int present = json_object_object_get_ex(obj, uni[k], NULL);
+			int present = level == 0 ? lh_table_lookup_ex(tab, uni[k], NULL) : json_object_object_get_ex(obj, uni[k], NULL);
 			uint32_t r = vh_below(100);
 			int padd = phase == 0 ? 70 : phase == 1 ? 45 : 25;
 			if (r < (uint32_t)padd)
@@ -593,10 +638,20 @@ static int drive(int start, int nexec, int nops)
 			}
 			else if (r < 90)
 				do_del(k);
-			else if (r < 94)
+			else if (r < 93)
 				do_get(k);
+			else if (r < 95)
+			{
+				/* a caller-chosen capacity: tiny, around the current count, or large */
+				int len = level == 0 ? lh_table_length(tab) : json_object_object_length(obj);
+				uint32_t m = vh_below(4);
+				do_resize(m == 0 ? 1 + (int)vh_below(3) : m == 1 ? 1 + (int)vh_below((uint32_t)len + 2) : m == 2 ? len + 1 + (int)vh_below(8) : 1 + (int)vh_below(200));
+			}
 			else if (r < 97)
-				observe_visit();
+			{
+				if (level == 1)
+					observe_visit();
+			}
 			else
 			{
 				int ks[MAXK], n = 0;
